@@ -7,17 +7,23 @@ package signer
 
 //@ func (*Handler).SignBeaconAttestation
 //@ requires h != nil
-//@ modifies tokroot, db, checkedset
+//@ requires [unlocked] !prelocked && (forall k [48]byte :: !held[k])
+//@ modifies tokroot, db, checkedset, held, prelocked
+//@ ensures [released] !prelocked && (forall k [48]byte :: !held[k])
 //@ ensures [failclosed] result1 == nil && result0 != nil && ((result0.State == pb.ResponseState_SUCCEEDED) <==> (result0.Signature != nil))
 
 //@ func (*Handler).SignBeaconProposal
 //@ requires h != nil
-//@ modifies tokroot, db, checkedset
+//@ requires [unlocked] !prelocked && (forall k [48]byte :: !held[k])
+//@ modifies tokroot, db, checkedset, held, prelocked
+//@ ensures [released] !prelocked && (forall k [48]byte :: !held[k])
 //@ ensures [failclosed] result1 == nil && result0 != nil && ((result0.State == pb.ResponseState_SUCCEEDED) <==> (result0.Signature != nil))
 
 //@ func (*Handler).Sign
 //@ requires h != nil
-//@ modifies tokroot, db, checkedset
+//@ requires [unlocked] !prelocked && (forall k [48]byte :: !held[k])
+//@ modifies tokroot, db, checkedset, held, prelocked
+//@ ensures [released] !prelocked && (forall k [48]byte :: !held[k])
 //@ ensures [failclosed] result1 == nil && result0 != nil && ((result0.State == pb.ResponseState_SUCCEEDED) <==> (result0.Signature != nil))
 
 // ---- batch endpoints: position by position ----
@@ -43,7 +49,9 @@ package signer
 
 //@ func (*Handler).Multisign
 //@ requires h != nil
-//@ modifies tokroot, db, checkedset
+//@ requires [unlocked] !prelocked && (forall k [48]byte :: !held[k])
+//@ modifies tokroot, db, checkedset, held, prelocked
+//@ ensures [released] !prelocked && (forall k [48]byte :: !held[k])
 //@ ensures [shape] result1 == nil && result0 != nil && len(result0.Responses) >= 1 && (forall i int :: 0 <= i && i < len(result0.Responses) ==> result0.Responses[i] != nil)
 //@ ensures [failclosed] forall i int :: 0 <= i && i < len(result0.Responses) ==> ((result0.Responses[i].State == pb.ResponseState_SUCCEEDED) <==> (result0.Responses[i].Signature != nil))
 //@ ensures [oneeach] req != nil && len(req.Requests) > 0 ==> len(result0.Responses) == len(req.Requests)
@@ -65,7 +73,9 @@ package signer
 
 //@ func (*Handler).SignBeaconAttestations
 //@ requires h != nil
-//@ modifies tokroot, db, checkedset
+//@ requires [unlocked] !prelocked && (forall k [48]byte :: !held[k])
+//@ modifies tokroot, db, checkedset, held, prelocked
+//@ ensures [released] !prelocked && (forall k [48]byte :: !held[k])
 //@ ensures [shape] result1 == nil && result0 != nil && len(result0.Responses) >= 1 && (forall i int :: 0 <= i && i < len(result0.Responses) ==> result0.Responses[i] != nil)
 //@ ensures [failclosed] forall i int :: 0 <= i && i < len(result0.Responses) ==> ((result0.Responses[i].State == pb.ResponseState_SUCCEEDED) <==> (result0.Responses[i].Signature != nil))
 //@ ensures [oneeach] req != nil && len(req.Requests) > 0 ==> len(result0.Responses) == len(req.Requests)
